@@ -177,6 +177,10 @@ pub fn call_results(log: &[String]) -> Vec<(String, String)> {
 
 pub struct Close;
 
+fn want_err_server(code: u64, text: &str) -> String {
+    format!("Err(ServerClosedConnection({},{}))", code, text)
+}
+
 impl Scenario for Close {
     fn name(&self) -> &'static str {
         "close"
@@ -225,6 +229,12 @@ impl Scenario for Close {
             }
         }
         v.push(json!({"who": "server", "after": "closeok", "stall": false, "code": 320, "text": "y".repeat(255), "codes": true}));
+        // crossing closes against a server that, like RabbitMQ in its closing state, still answers
+        // the client's Close with CloseOk (which then follows the server's own Close in the stream)
+        for stall in [false, true] {
+            v.push(json!({"who": "server", "after": "closeok", "stall": stall, "code": 320, "answer_crossing": true}));
+        }
+        v.push(json!({"who": "client", "after": "closeok", "stall": false, "code": 320, "crossing_same_read": true}));
         v
     }
     fn bound(&self, tier: &str, p: &Value) -> usize {
@@ -255,6 +265,12 @@ impl Scenario for Close {
         let text = p["text"].as_str().unwrap_or("server says bye").to_string();
         if p["after"] == "closeok+eof" {
             broker.close_behaviour = CloseBehaviour::CloseOkThenEof;
+        }
+        broker.answer_crossing_close = p["answer_crossing"] == true;
+        if p["crossing_same_read"] == true {
+            // the server's own Close had just gone out when the client's arrived: the client finds
+            // the server's Close and the CloseOk for its own in one read
+            broker.close_behaviour = CloseBehaviour::FramesThenCloseOk(vec![conn_close_frame(code, &text)]);
         }
         let slow = p["after"] == "closeok-delayed";
         if slow {
@@ -380,6 +396,18 @@ impl Scenario for Close {
         let server_closed = o.io_events.iter().any(|e| matches!(e, vh::sim::world::IoEvent::Frame(AMQPFrame::Method(0, AMQPClass::Connection(pconnection::AMQPMethod::Close(_))))));
         if server && !server_closed {
             return v; // the server never got to close in this execution (push not taken): nothing to check
+        }
+        if p["crossing_same_read"] == true {
+            // both sides closed; the client may report its own close as completed or the server's,
+            // but nothing else, and its Close stays the last frame it wrote
+            let ok = matches!(close_res.as_deref(), Some("Ok")) || close_res.as_deref() == Some(want_err_server(code, &text).as_str());
+            if !ok {
+                v.push((format!("close:crossing-result:{}", close_res.clone().unwrap_or_default()), format!("the server's Close and its CloseOk arrived in one read: Connection::close returned {:?}", close_res)));
+            }
+            if !envs.last().map(|e| e.chan == 0 && is_method(e, 10, 50)).unwrap_or(false) || rest != 0 {
+                v.push(("close:last-frame".into(), "the last frame written is not the client's Connection.Close".into()));
+            }
+            return v;
         }
         match close_res.as_deref() {
             None => v.push(("close:no-result".into(), format!("Connection::close did not return: {:?}", main))),
@@ -612,6 +640,9 @@ impl Scenario for Death {
             v.push(json!({"fault": "clientexception", "bound": 16, "long": k}));
         }
         v.push(json!({"fault": "unsolicited", "bound": 16}));
+        for bound in [1usize, 16] {
+            v.push(json!({"fault": "serverclose-eof", "bound": bound}));
+        }
         // the same ends reached through drop instead of close
         for fault in ["silence", "serverclose", "clientexception", "none"] {
             v.push(json!({"fault": fault, "bound": 16, "drop": true}));
@@ -659,6 +690,8 @@ impl Scenario for Death {
             "malformed" => broker.corrupt_frame = Some(p["frame"].as_u64().unwrap() as usize),
             "silence" => broker.silent_after_handshake = true,
             "serverclose" => broker.pushes.push(Push::new("conn-close", vec![conn_close_frame(320, "going down")]).after_frames(5)),
+            // the server says why it closes and hangs up without waiting for the answer
+            "serverclose-eof" => broker.pushes.push(Push::new("conn-close", vec![conn_close_frame(320, "going down")]).after_frames(5).eof()),
             "unsolicited" => {
                 // two replies nobody asked for fill channel 1's reply queue; then the server closes
                 // the connection: whichever of the two the client names as the cause, it ends
@@ -721,7 +754,7 @@ impl Scenario for Death {
             "writeerr" => vec!["Err(IoErrorWritingSocket)".into()],
             "malformed" => vec!["Err(MalformedFrame)".into()],
             "silence" | "deadpeer" => vec!["Err(MissedServerHeartbeats)".into()],
-            "serverclose" if got_server_close => vec!["Err(ServerClosedConnection(320,going down))".into()],
+            "serverclose" | "serverclose-eof" if got_server_close => vec!["Err(ServerClosedConnection(320,going down))".into()],
             "unsolicited" => vec!["Err(ServerClosedConnection(320,going down))".into(), "Err(FrameUnexpected)".into(), "Ok".into()],
             "clientexception" if got_tx => vec!["Err(ClientException)".into()],
             _ => vec!["Ok".into()],
